@@ -23,3 +23,9 @@ def tasks(tier, seed):
         func("bt.core.CouponPayingHedgeSecurity.update"),
         dict(kind="custom", module="props.lemmas", fn="c08_security_update_idempotent"),
     ]
+
+
+def replay(o):
+    from pyvc.concrete import replay_scenario
+
+    return replay_scenario(o)
